@@ -282,4 +282,14 @@ theorem ofNat_toNat_div65536 (n : Nat) : UInt8.ofNat ((n : Int) / 65536 % 256).t
 theorem ofNat_toNat_div16777216 (n : Nat) : UInt8.ofNat ((n : Int) / 16777216 % 256).toNat = UInt8.ofNat (n / 16777216) := by
   apply u8_ofNat_eq; omega
 
+/-! `to_be_bytes` and checked indexing of short lists -/
+theorem beBytes_u16 (x : Int) : Rt.Phy.beBytes .u16 x = [x / 256 % 256, x % 256] := by
+  simp [Rt.Phy.beBytes, Rt.ITy.bits, List.range, List.range.loop]
+theorem beBytes_u32 (x : Int) : Rt.Phy.beBytes .u32 x = [x / 16777216 % 256, x / 65536 % 256, x / 256 % 256, x % 256] := by
+  simp [Rt.Phy.beBytes, Rt.ITy.bits, List.range, List.range.loop]
+theorem idx_zero {α : Type} (a : α) (l : List α) : Rt.idx (a :: l) 0 = some a := rfl
+theorem idx_one {α : Type} (a b : α) (l : List α) : Rt.idx (a :: b :: l) 1 = some b := rfl
+theorem idx_two {α : Type} (a b c : α) (l : List α) : Rt.idx (a :: b :: c :: l) 2 = some c := rfl
+theorem idx_three {α : Type} (a b c d : α) (l : List α) : Rt.idx (a :: b :: c :: d :: l) 3 = some d := rfl
+
 end TieA.Phy
